@@ -870,6 +870,11 @@ def m_mod_footprint(self, st, c, env):
                 name = self.spec(st, b.strip(), env)
                 fp.setdefault('slots', []).append(('cell', pkt.z, name.z))
             continue
+        mm = _re.match(r'^([A-Z]\w*)\.(\w+)\[\*\]$', m)
+        if mm and mm.group(1) in self.classes:
+            # Class.attr[*]: the attribute of ANY object of the class (class-construction time code)
+            fp.setdefault('%s.%s' % (mm.group(1), mm.group(2)), []).append('ALL')
+            continue
         if m.endswith('[*]'):
             l = self.spec(st, m[:-3], env)
             fp.setdefault('list', []).append(l.z)
@@ -892,6 +897,9 @@ def m_mod_footprint(self, st, c, env):
             raise Untranslated('modifies: unknown attr ' + m)
         fp.setdefault('%s.%s' % (owner, attr), []).append(o.z)
     return fp
+
+
+import re as _re
 
 
 def split_top(s):
@@ -928,6 +936,9 @@ def m_havoc_modifies(self, st, pre, c, env, nxt0=None, alloc=None, full=False):
 
     def havoc_array(key, cells):
         old = pre.heap[key]
+        if any(isinstance(cz, str) for cz in cells):
+            st.heap[key] = fresh(key.replace('.', '_').replace('?', '_set'), old.sort())
+            return
         if not (alloc and full) and len(cells) <= 2:
             new = old
             for cz in cells:
@@ -1019,7 +1030,12 @@ def m_havoc_named(self, st, pre, fp):
                 store_fresh(key + 'val', cz)
         else:
             for cz in cells:
-                store_fresh(key, cz)
+                if isinstance(cz, str):
+                    st.heap[key] = fresh(key.replace('.', '_'), st.heap[key].sort())
+                    if key + '?' in st.heap:
+                        st.heap[key + '?'] = fresh(key.replace('.', '_') + '_set', st.heap[key + '?'].sort())
+                else:
+                    store_fresh(key, cz)
 
 
 def m_havoc_slots(self, st, pre, cells, alloc, nxt0):
@@ -1061,6 +1077,12 @@ def m_havoc_slots(self, st, pre, cells, alloc, nxt0):
 
 # ---------------------------------------------------------------------- builtins
 def m_call_builtin(self, st, name, pos, kws, kwstar, starv, k):
+    if name == 'zip' and starv is not None and not pos:
+        # zip(*rows) of a list of pairs: the columns (only passed on to opaque str/join operations)
+        n = self.llen(st, starv.z) if isinstance(starv, VList) else starv.n
+        cols = [VSeqAbs(n, (lambda c: (lambda i: VDyn(z3.Function('zipcol', T.I, T.I, T.I, T.Val)(fresh('zip', T.I), z3.IntVal(c), i))))(c), 'zipcol')
+                for c in range(2)]
+        return self.with_raises(st, [(n == 0, 'ValueError')], lambda st: k(st, VTuple(cols)))
     h = getattr(self, 'bi_' + name.replace('.', '_'), None)
     if h is None:
         raise Untranslated('builtin %s' % name)
@@ -1502,6 +1524,10 @@ def m_bi_sorted(self, st, pos, kws, k):
     if isinstance(v, VSeqAbs) and v.tag.startswith('items:'):
         return k(st, v.sorted_view)
     raise Untranslated('sorted(%s)' % v.kind)
+
+
+def m_bi_zip(self, st, pos, kws, k, starv=None):
+    raise Untranslated('zip')
 
 
 def m_bi_max(self, st, pos, kws, k):
@@ -2061,7 +2087,12 @@ def m_s_If(self, st, s, k):
         def then(st):
             self.narrow(st, s.test)
             return self.exec_block(st, s.body, k)
-        self.branch(st, t, then, lambda st: self.exec_block(st, s.orelse, k), 'if@%d:' % s.lineno_rel)
+
+        def otherwise(st):
+            if isinstance(s.test, ast.UnaryOp) and isinstance(s.test.op, ast.Not):
+                self.narrow(st, s.test.operand)     # `if not isinstance(x, C): <leave>` - x is a C afterwards
+            return self.exec_block(st, s.orelse, k)
+        self.branch(st, t, then, otherwise, 'if@%d:' % s.lineno_rel)
     return self.ev(st, s.test, got)
 
 
@@ -2485,6 +2516,8 @@ def m_check_frame(self, st, pre, c, label):
                 cells = fp.get(key[:-1], [])
             else:
                 cells = fp.get(key, [])
+            if any(isinstance(cz, str) for cz in cells):
+                continue
             g = z3.Implies(z3.And([r < nxt0] + [r != cz for cz in cells]),
                            z3.Select(a1, r) == z3.Select(a0, r))
         lab = '%s: %s unchanged outside modifies' % (label, key)
@@ -2633,7 +2666,12 @@ def m_apply_ghost(self, st, c, env, pre):
         obj = self.spec(st, base, env, old=pre)
         owner, kind = self.attr_kind(obj.cls, attr)
         node = ast.parse(lam, mode='eval').body
-        assert isinstance(node, ast.Lambda) and kind.startswith('dict:')
+        if not isinstance(node, ast.Lambda):        # scalar ghost attribute := expression
+            val = SpecEval(self, st, dict(env), pre).ev(node)
+            key = '%s.%s' % (owner, attr)
+            st.heap[key] = z3.Store(st.heap[key], obj.z, self.unwrap(kind, val))
+            continue
+        assert kind.startswith('dict:')
         q = z3.Int('q!g')
         env2 = dict(env)
         env2[node.args.args[0].arg] = VInt(q)
